@@ -204,6 +204,18 @@ func guardedDecode(desc func() string, f func()) (panicked bool, msg string) {
 	return guarded(desc, f)
 }
 
+// unguarded recovers panics but does not arm the watchdog.
+func unguarded(f func()) (panicked bool, msg string) {
+	defer func() {
+		if r := recover(); r != nil {
+			panicked = true
+			msg = fmt.Sprint(r)
+		}
+	}()
+	f()
+	return
+}
+
 func guarded(desc func() string, f func()) (panicked bool, msg string) {
 	callDesc.Store(desc())
 	callStart.Store(time.Now().UnixNano())
